@@ -258,10 +258,18 @@ pub fn impl_fail(what: &str) -> ! {
     let _ = std::fs::create_dir_all(&dir);
     let path = dir.join(format!("{}-setup.json", id));
     let _ = std::fs::write(&path, serde_json::json!({"property": id, "case": "harness precondition on the implementation", "observed": what, "payload": {"kind": "setup"}}).to_string());
+    use std::io::Write;
+    let _ = std::io::stdout().flush();
+    // evaluated programs may have been silenced: the verdict goes to the real stdout
+    let real = REAL_STDOUT.load(std::sync::atomic::Ordering::SeqCst);
+    if real >= 0 {
+        unsafe {
+            libc::dup2(real, 1);
+        }
+    }
     println!("VIOLATION property={} replay={}", id, path.display());
     println!("  case: a precondition of the check fails on this tree");
     println!("  observed: {}", what);
-    use std::io::Write;
     let _ = std::io::stdout().flush();
     std::process::exit(1);
 }
@@ -420,6 +428,8 @@ pub fn on_fresh_thread_with_stack<T: Send + 'static>(stack: usize, f: impl FnOnc
 pub struct StdoutSilencer {
     saved: i32,
 }
+/// the real stdout while a silencer is active (-1 otherwise): verdict lines must still reach it
+static REAL_STDOUT: std::sync::atomic::AtomicI32 = std::sync::atomic::AtomicI32::new(-1);
 impl StdoutSilencer {
     pub fn new() -> StdoutSilencer {
         use std::io::Write;
@@ -431,6 +441,7 @@ impl StdoutSilencer {
                 libc::dup2(devnull, 1);
                 libc::close(devnull);
             }
+            REAL_STDOUT.store(saved, std::sync::atomic::Ordering::SeqCst);
             StdoutSilencer { saved }
         }
     }
@@ -439,6 +450,7 @@ impl Drop for StdoutSilencer {
     fn drop(&mut self) {
         use std::io::Write;
         let _ = std::io::stdout().flush();
+        REAL_STDOUT.store(-1, std::sync::atomic::Ordering::SeqCst);
         unsafe {
             if self.saved >= 0 {
                 libc::dup2(self.saved, 1);
